@@ -315,10 +315,20 @@ def Rzeta_simul(ctx, s, der=0):
     xL = 1
     while 3*xc*ctx.gamma(xL*0.5) * ctx.power(xb*a,-xL) >= xeps2:
         xL = xL+1
+        if 3*xL >= 2*a*a/25.:
+            # (condition (20) below has failed already, and this bound,
+            # of a divergent series, need never get below eps2)
+            ctx.prec = wpinitial
+            raise NotImplementedError("Riemann-Siegel can not compute with such precision")
     xL = max(2,xL)
     yL = 1
     while 3*yc*ctx.gamma(yL*0.5) * ctx.power(yb*a,-yL) >= yeps2:
         yL = yL+1
+        if 3*yL >= 2*a*a/25.:
+            # (condition (20) below has failed already, and this bound,
+            # of a divergent series, need never get below eps2)
+            ctx.prec = wpinitial
+            raise NotImplementedError("Riemann-Siegel can not compute with such precision")
     yL = max(2,yL)
 
     #  The number L has to satify some conditions.
@@ -829,6 +839,11 @@ def Rzeta_set(ctx, s, derivatives=[0]):
     L = 1
     while 3*c*ctx.gamma(L*0.5) * ctx.power(b*a,-L) >= eps2:
         L = L+1
+        if 3*L >= 2*a*a/25.:
+            # (condition (20) below has failed already, and this bound,
+            # of a divergent series, need never get below eps2)
+            ctx.prec = wpinitial
+            raise NotImplementedError("Riemann-Siegel can not compute with such precision")
     L = max(2,L)
     #  The number L has to satify some conditions.
     #  If not RS can not compute Rzeta(s) with the prescribed precision
